@@ -104,6 +104,13 @@ CHECKS = {
         "code, default codes, no-content) it asserts: a successful call ran middleware and handler once with exactly the caller's values (defaults applied), the middleware sees what the handler "
         "sees, the caller gets exactly the variant/status/header/body returned, and core-domain values are always delivered. One spec (three operations); the spec dimension is not explored.",
    design="4 C01", technique="symbolic execution of generated client and server Go code (go/ssa) in an in-process loop-back + SMT"),
+ "C15": dict(
+   text="Bounded symbolic model checking of a server GENERATED in this run (C01's spec) against hand-built *http.Request values that bypass net/http's validation: method from six choices x "
+        "URL.Path of 0..4 (6) fully symbolic bytes with an independent symbolic RawPath; operation getP with symbolic RawQuery / Cookie / header texts and handler outcome; POST bodies with five "
+        "content-type choices (incl. 3 symbolic bytes) and bodies that are corrupted by a symbolic window, truncated at every length, followed by symbolic trailing bytes or missing/mistyping the "
+        "required member. Asserts: no panic, exactly one response, unrouted requests 404/405, parameter-stage failure => 400 and no handler, body-stage failure => 400/415 and no handler, handler "
+        "error => 500, and against an independent recogniser: truncated / trailing-data / invalid-member bodies never reach the handler. The 401 stage is in C09.",
+   design="4 C15", technique="symbolic execution of generated server Go code (go/ssa) on symbolic hand-built requests + SMT"),
 }
 
 NA = {
